@@ -264,7 +264,7 @@ def observations(mode="all"):
         L.append("subsA|4|N")
         L.append("subsA|3 4|N")
     L.append("probe")
-    L.append("baseq")
+    L.append("baseq|m" if mode == "multi" else "baseq")
     return L
 
 
